@@ -7,6 +7,7 @@ import Yabgp.Driver.RibOps
 import Yabgp.Driver.MsgLogOps
 import Yabgp.Driver.MpOps
 import Yabgp.Driver.RestOps
+import Yabgp.Driver.EvfOps
 
 namespace Yabgp.Glue
 open Lean (Json)
@@ -17,12 +18,16 @@ structure DState where
   rib : Yabgp.RibGlue.RibDState := {}
   msglog : MsgLogOps.MsgLogState := {}
   rest : Yabgp.RestGlue.RestState := {}
+  evf : Yabgp.EvfGlue.EvfDState := {}
 
 def dispatch (st : DState) (j : Json) : Except String (DState × Json) := do
   let op ← getStr j "op"
   if Yabgp.RibGlue.isRibOp op then
     let (r, out) ← Yabgp.RibGlue.dispatchRib st.rib j
     return ({ st with rib := r }, out)
+  if op.startsWith "evpn." || op.startsWith "flowspec." || op.startsWith "evf." then
+    let (e', r) ← Yabgp.EvfGlue.dispatchEvf st.evf j
+    return ({ st with evf := e' }, r)
   if op.startsWith "rest." then
     let r ← Yabgp.RestGlue.dispatchRest st.rest j
     return ({ st with rest := r.1 }, r.2)
